@@ -39,7 +39,7 @@ pub fn parse_world_module_at(world: &World, spec: &str, kind: u8, reload: bool) 
         content,
         file_system: &NullFileSystem,
         jsr_url_provider: Default::default(),
-        maybe_resolver: None,
+        maybe_resolver: world.resolver.as_ref().map(|r| r as &dyn deno_graph::source::Resolver),
         module_analyzer: &analyzer,
       }));
       let raw_hash = LoaderChecksum::r#gen(&world.content_of(spec, reload).unwrap());
